@@ -43,6 +43,42 @@ def buffers_of(loop):
     return out
 
 
+def _same_start(a1, a2):
+    """Both arguments are views of the same buffer starting at the same
+    offset."""
+    def norm(a):
+        if isinstance(a, Sym) and a.op == 'slice':
+            return a.args[0], a.args[1]
+        return a, 0
+    b1, s1 = norm(a1)
+    b2, s2 = norm(a2)
+    if b1 is None or b2 is None:
+        return False
+    same_base = b1 is b2 or (isinstance(b1, Sym) and isinstance(b2, Sym)
+                             and b1 == b2)
+    return same_base and (s1 is s2 or s1 == s2 or
+                          (isinstance(s1, (Sym, int)) and
+                           isinstance(s2, (Sym, int)) and
+                           T.sub(s1, s2) == 0))
+
+
+def _exclusive(k1, k2):
+    """The two path-atom lists belong to different branches."""
+    n = 0
+    while n < len(k1) and n < len(k2) and k1[n] == k2[n]:
+        n += 1
+    if n >= len(k1) or n >= len(k2):
+        return False  # one path continues the other
+    x, y = k1[n], k2[n]
+    if x == T.not_(y) or y == T.not_(x):
+        return True
+    if isinstance(x, Sym) and isinstance(y, Sym) and x.op == y.op == 'eq' \
+            and x.args[0] == y.args[0] and x.args[1] != y.args[1] and \
+            T.is_const(x.args[1]) and T.is_const(y.args[1]):
+        return True
+    return False
+
+
 def analyse_loop(chk, loop, seen):
     fi = loop['func']
     node = loop['node']
@@ -131,6 +167,7 @@ def run(chk, ctx):
     seen = set()
     loops = []
     static_loops = {}
+    runs = []
     rec_calls = []
     entry_funcs = []
     dmod = prog.module('decode')
@@ -167,12 +204,14 @@ def run(chk, ctx):
             it, outs = codec.run(prog, fi, args)
         loops.extend(it.loops)
         rec_calls.extend(it.rec_calls)
+        runs.append(it)
         for k_, n_ in it.static_loops.items():
             static_loops[k_] = max(static_loops.get(k_, 0), n_)
     keys = [k for k, _ in ctx.index_mapping()]
     f = F.UnmarshalFacts(ctx, keys[0] if keys else None)
     loops.extend(f.it.loops)
     rec_calls.extend(f.it.rec_calls)
+    runs.append(f.it)
     f_hdr = F.UnmarshalFacts(ctx, None)
     for it_ in (f.it, f_hdr.it):
         for k_, n_ in it_.static_loops.items():
@@ -216,6 +255,49 @@ def run(chk, ctx):
                           a.op == 'slice' else '?', lo),
                detail={'chain': ' <- '.join(reversed(chain))}, site=site)
     chk.floor('C08.R', 2, 'recursive call sites')
+    # single descent: within one activation step the recursive decoders are
+    # entered at most once per buffer position
+    cyc = set()
+    for fi, args, chain, site, kn in rec_calls:
+        if fi.short in chain:
+            cyc.update(chain[chain.index(fi.short):])
+        cyc.add(fi.short)
+    ndesc = 0
+    dseen = set()
+    for it_ in runs:
+        groups = {}
+        for short, chain, seq, _d in it_.calls:
+            name = short.split(' ')[0]
+            if name not in cyc or seq not in it_.call_info:
+                continue
+            caller = tuple(chain[:-1])
+            groups.setdefault(caller, []).append((seq, name))
+        for caller, cs in groups.items():
+            ndesc += len(cs)
+            cs.sort()
+            for i in range(len(cs)):
+                for j in range(i + 1, len(cs)):
+                    a1, k1 = it_.call_info[cs[i][0]]
+                    a2, k2 = it_.call_info[cs[j][0]]
+                    if not _same_start(a1, a2) or _exclusive(k1, k2):
+                        continue
+                    key = (caller[-1] if caller else '?', cs[i][1],
+                           cs[j][1])
+                    if key in dseen:
+                        continue
+                    dseen.add(key)
+                    chk.ob('C08.R', 'descents from %s' % key[0], False,
+                           '%s and then %s are both entered at buffer '
+                           'position %s on one path: the work doubles with '
+                           'every nesting level' % (
+                               cs[i][1], cs[j][1],
+                               T.show(a1.args[1])[:60] if isinstance(
+                                   a1, Sym) and a1.op == 'slice' else '0'),
+                           site='pamqp/decode.py')
+    chk.ob('C08.R', 'single descent', not dseen,
+           '%d entries into the recursive decoders %s examined; no two on '
+           'one path start at the same buffer position' %
+           (ndesc, sorted(cyc)))
     # arithmetic blow-up
     dec = dmod.functions.get('decimal')
     n_pow = 0
@@ -277,3 +359,4 @@ def run(chk, ctx):
     chk.units['entry_functions'] = len(entry_funcs) + 1
     chk.assume('slice copies and struct reads cost time linear in their '
                'length (CPython)')
+
